@@ -437,8 +437,9 @@ Section (a) addresses states by PATH and assumes the id ↔ path correspondence 
 `resume` theorems — `NoMarks`.  For REACHABLE instances (`ReachableOf shape cfg m`, Proofs/Reach.lean:
 `Mach.create shape cfg` followed by any history of API calls) without contract violation, C01's invariant gives
 the pre-order numbering (`IdsFrom 0`, hence `pathTo c.id = some p` for the state `c` at path `p`) and `Act` of an
-activated instance; `NoMarks` holds on `QuietOf` histories (not after `load / replayTransitions` / a
-`replayEnter` that answered `false`: GAP 2 of Proofs/Reach.lean). -/
+activated instance; `NoMarks` holds on `QuietOf` histories: every reachable history except one containing a
+`replayEnter` of a non-empty history that answered `false` (GAP 2 of Proofs/Reach.lean, closed for `load` and
+`replayTransitions` by Proofs/LoadMarks.lean). -/
 namespace Hfsm.Props.C13
 open Hfsm
 variable {U : Type} [UtilArith U] {shape : Shape} {cfg : Config} {m : Mach U}
